@@ -110,7 +110,7 @@ func c08SmallHistory(r *verifkit.Run, i int, base string) {
 	node := c07NewNode()
 	node.Chans = c07Channels(2 + rng.IntN(3))
 	p := c07Params{Ops: r.N(60, 90), PairPool: 8 + rng.IntN(57), IDPool: 4 + rng.IntN(24), PCollide: 0.45, MaxBatch: 24,
-		AllowDBOps: true, SigPrefix: "c08:", ChurnOneIn: 3,
+		AllowDBOps: true, SigPrefix: "c08:", ChurnOneIn: 3, CancelOneIn: 10,
 		//                 append apply trunc trim adopt ckpt lease reopen read
 		Weights: [9]int{50, 12, 7, 5, 3, 0, 10, 6, 7}}
 	d := c07NewDriver(r, rng, node, node.Chans, []c07Surface{surf}, p)
